@@ -510,6 +510,93 @@ func int64List(xs []int64) string {
 	return "[" + strings.Join(ss, ", ") + "]"
 }
 
+// errChecked reports, for the calls in f whose function text is fn (and, when arg0 != "", whose first
+// argument is the identifier arg0): how many there are and whether every one of them has its error
+// result tested at once and turned into a non-nil error return, in one of the two shapes
+//   if err := CALL; err != nil { ...; return ..., <non-nil> }
+//   ..., err := CALL  (or =)   followed directly by   if err != nil { ...; return ..., <non-nil> }
+// A call used as a bare statement, deferred, or assigned to _ counts as unchecked.
+func errChecked(f *ast.File, fn, arg0 string) (n int, all bool) {
+	match := func(e ast.Expr) *ast.CallExpr {
+		c, ok := e.(*ast.CallExpr)
+		if !ok || exprText(c.Fun) != fn {
+			return nil
+		}
+		if arg0 != "" && (len(c.Args) == 0 || exprText(c.Args[0]) != arg0) {
+			return nil
+		}
+		return c
+	}
+	errTest := func(e ast.Expr) bool {
+		b, ok := e.(*ast.BinaryExpr)
+		return ok && b.Op == token.NEQ && exprText(b.X) == "err" && exprText(b.Y) == "nil"
+	}
+	returnsErr := func(b *ast.BlockStmt) bool {
+		if b == nil || len(b.List) == 0 {
+			return false
+		}
+		r, ok := b.List[len(b.List)-1].(*ast.ReturnStmt)
+		if !ok || len(r.Results) == 0 {
+			return false
+		}
+		return exprText(r.Results[len(r.Results)-1]) != "nil"
+	}
+	assignsErr := func(a *ast.AssignStmt) *ast.CallExpr {
+		if len(a.Rhs) != 1 {
+			return nil
+		}
+		c := match(a.Rhs[0])
+		if c == nil {
+			return nil
+		}
+		for _, l := range a.Lhs {
+			if exprText(l) == "err" {
+				return c
+			}
+		}
+		return nil
+	}
+	checked := map[*ast.CallExpr]bool{}
+	ast.Inspect(f, func(nd ast.Node) bool {
+		switch x := nd.(type) {
+		case *ast.IfStmt:
+			if a, ok := x.Init.(*ast.AssignStmt); ok && errTest(x.Cond) && returnsErr(x.Body) {
+				if c := assignsErr(a); c != nil {
+					checked[c] = true
+				}
+			}
+		case *ast.BlockStmt:
+			for i := 0; i+1 < len(x.List); i++ {
+				a, ok := x.List[i].(*ast.AssignStmt)
+				if !ok {
+					continue
+				}
+				c := assignsErr(a)
+				if c == nil {
+					continue
+				}
+				if nx, ok := x.List[i+1].(*ast.IfStmt); ok && nx.Init == nil && errTest(nx.Cond) && returnsErr(nx.Body) {
+					checked[c] = true
+				}
+			}
+		}
+		return true
+	})
+	all = true
+	ast.Inspect(f, func(nd ast.Node) bool {
+		if e, ok := nd.(ast.Expr); ok {
+			if c := match(e); c != nil {
+				n++
+				if !checked[c] {
+					all = false
+				}
+			}
+		}
+		return true
+	})
+	return n, all && n > 0
+}
+
 func extractSlug(repo, out string) {
 	p := filepath.Join(out, "Slug.lean")
 	f, _ := parseFile(filepath.Join(repo, "slug.go"))
@@ -544,6 +631,15 @@ func extractSlug(repo, out string) {
 		fmt.Println("extract: slug facts not found")
 		return
 	}
+	var checks []string
+	for _, c := range [][2]string{{"tarW.WriteHeader", ""}, {"io.Copy", "tarW"}, {"tarW.Close", ""}, {"gzipW.Close", ""}} {
+		n, all := errChecked(f, c[0], c[1])
+		name := c[0]
+		if c[1] != "" {
+			name += "(" + c[1] + ")"
+		}
+		checks = append(checks, fmt.Sprintf("(%q, %d, %v)", name, n, all))
+	}
 	mk := callIntArgs(f, "Unpack", "os.MkdirAll", 1)
 	ch := callIntArgs(f, "Unpack", "os.Chmod", 1)
 	content := fmt.Sprintf(`/-! GENERATED by harness/cmd/extract from /repo/slug.go and /repo/internal/unpackinfo/unpackinfo.go — do not edit.
@@ -565,11 +661,15 @@ def regularFlags : List String := %s
 
 def typeXFlags : List String := %s
 
+/-- write-side operations of Pack: (call, number of call sites, every call
+site has its error result tested at once and turned into a non-nil error return) -/
+def ioErrChecks : List (String × Nat × Bool) := [%s]
+
 def slugExtracted : Bool := true
 
 end Slug.Generated
 `, maxHops, int64List(mk), int64List(ch), leanStrList(typeflagNames(u, "IsSymlink")), leanStrList(typeflagNames(u, "IsDirectory")),
-		leanStrList(typeflagNames(u, "IsRegular")), leanStrList(typeflagNames(u, "IsTypeX")))
+		leanStrList(typeflagNames(u, "IsRegular")), leanStrList(typeflagNames(u, "IsTypeX")), strings.Join(checks, ", "))
 	writeIfChanged(p, content)
 }
 
